@@ -160,6 +160,32 @@ def benign_mutants_of(path, rel):
         m = re.search(r"\bif (?!let\b)([^{}]+?) \{ ([^{};]+) \} else \{ ([^{};]+) \}", code)
         if m:
             add("b-if-flip", m.start(), m.end(), "if !(%s) { %s } else { %s }" % (m.group(1), m.group(3), m.group(2)))
+        for m in re.finditer(r"\b(min|max)!\((%s), (%s)\)" % (SIMPLE, SIMPLE), code):
+            add("b-minmax-swap", m.start(), m.end(), "%s!(%s, %s)" % (m.group(1), m.group(3), m.group(2)))
+        for m in re.finditer(r"(%s) \* (\d+)(?![\w.])" % SIMPLE, code):
+            if re.search(r"(?:\(|= |, |\[|>= |<= |> |< |== )$", code[:m.start()]) and re.match(r"(?:\)|;|,|\]| \{|\s*$)", code[m.end():]):
+                add("b-mul-swap", m.start(), m.end(), "%s * %s" % (m.group(2), m.group(1)))
+        for m in re.finditer(r"\.cloned\(\)", code):
+            add("b-copied", m.start(), m.end(), ".copied()")
+        for m in re.finditer(r"\.unwrap_or\(false\)", code):
+            add("b-opt-true", m.start(), m.end(), ".map_or(false, |b| b)")
+    # two adjacent `let` statements with pure-looking right-hand sides that do not mention each other: swapped
+    lines = non_test_lines(path)
+    pure = re.compile(r"^[\w\s.()!,+\-*/&\[\]:]*$")
+    for k in range(len(lines) - 1):
+        (i1, l1), (i2, l2) = lines[k], lines[k + 1]
+        m1 = re.match(r"^(\s+)let (\w+)\s*= (.+);\s*$", l1)
+        m2 = re.match(r"^(\s+)let (\w+)\s*= (.+);\s*$", l2)
+        if not (m1 and m2 and i2 == i1 + 1 and m1.group(1) == m2.group(1)):
+            continue
+        r1, r2 = m1.group(3), m2.group(3)
+        if not (pure.match(r1) and pure.match(r2)) or re.search(r"\b%s\b" % m1.group(2), r2) or re.search(r"\b%s\b" % m2.group(2), r1):
+            continue
+        if re.search(r"\b(push|pop|clear|next|take|borrow_mut|insert|remove|drain|truncate|resize|extend|with|unwrap|expect)\b|\?|!\(", r1 + r2):
+            continue
+        if m1.group(2) == m2.group(2):
+            continue
+        res.append({"file": rel, "line": i1, "fn": "?", "op": "b-let-swap", "old": l1, "new": l2, "line2": i2, "old2": l2, "new2": l1})
     return res
 
 
@@ -237,6 +263,9 @@ def worker(lane, q, results, lock, run_tests):
         lines = orig.split("\n")
         assert lines[m["line"]] == m["old"], (m, lines[m["line"]])
         lines[m["line"]] = m["new"]
+        if "line2" in m:
+            assert lines[m["line2"]] == m["old2"]
+            lines[m["line2"]] = m["new2"]
         open(path, "w").write("\n".join(lines))
         try:
             if "compiles" in m:        # resumed: the static part is known, only the suite is missing
